@@ -122,7 +122,7 @@ func genC20(seed, index uint64, tier string) *Plan {
 	nc := 1 + g.N(2)
 	for k := 0; k < nc; k++ {
 		c := &CorruptSpec{Rev: g.N(npre + 1), Pos: g.N(100000)}
-		c.Mode = g.Pick("bitflip", "bitflip", "truncate", "truncate", "zero", "garbage", "b64nogzip", "jsonnull", "jsonarray", "jsonnoinfo", "emptydata")
+		c.Mode = g.Pick("bitflip", "bitflip", "truncate", "truncate", "zero", "garbage", "b64nogzip", "jsonnull", "jsonarray", "jsonnoinfo", "emptydata", "gz-header", "gz-header", "gz-truncate", "gz-bitflip", "gz-crc")
 		p.Steps = append(p.Steps, Step{Corrupt: c})
 		nops := 1 + g.N(4)
 		for i := 0; i < nops; i++ {
